@@ -472,6 +472,10 @@ def instances(tier):
         out.append({'func': 'h_sample_tt', 'params': {'n': n, 'r': r}})
     out.append({'func': 'h_sample_tt_history', 'params': {'n': [2, 2], 'r_first': 1, 'r': 2}})
     out.append({'func': 'h_rand_samplers', 'params': {'n': [2, 3], 'm': 2}})
+    # (mode sizes that are not uniform although their sum is d * n_0, or d * n_last; a mode of size 1)
+    out.append({'func': 'h_rand_samplers', 'params': {'n': [3, 2, 4], 'm': 2}})
+    out.append({'func': 'h_rand_samplers', 'params': {'n': [4, 2, 3], 'm': 1}})
+    out.append({'func': 'h_rand_samplers', 'params': {'n': [2, 1, 3], 'm': 2}})
     return out
 
 
